@@ -61,8 +61,53 @@ func c20Respell(r *rand.Rand, q string, mode int) string {
 	return b.String()
 }
 
+// c20NLPSweep: every word the query-analysis package names (also with an ending glued on, so that it is only contained in a
+// longer word) in front of every phrase it names: the analysis - and with it the NLP answer - of the lower-case and the
+// upper-case spelling must be the same.
+func c20NLPSweep(ctx *Ctx, r *rand.Rand) {
+	d := ctx.Dict()
+	cmds := vlib.GenCommands(r, vlib.DBSpec{N: 30, TieHeavy: true, Pipelines: true})
+	// entries the action / target vocabulary can tell apart
+	for i, t := range []string{"less file.txt", "cat file.txt", "vim file.txt", "tail -f app.log", "head -n 5 file", "nano notes.txt", "open report.pdf", "view image.png"} {
+		cmds = append(cmds, vlib.Cmd{Command: t, Description: []string{"view file contents page by page", "print file contents", "edit a file", "follow a log file", "show first lines of a file", "edit text file", "open a document", "display an image"}[i], Keywords: []string{"file", "view", "show", "edit", "read"}})
+	}
+	db := vlib.MustLoad(cmds)
+	o := database.SearchOptions{Limit: len(cmds) + 1, UseNLP: true, AllPlatforms: true}
+	budget := ctx.Pick(25000, 1000000)
+	n := 0
+	total := d.NLPCombos(ctx.Shard, ctx.NShards, "file", func(q string) {
+		n++
+		if n > budget {
+			return
+		}
+		up := strings.ToUpper(q)
+		cs := map[string]interface{}{"db": "nlp-sweep", "n": len(cmds), "query": q, "variant": up, "opts": vlib.OptsJ(o)}
+		ctx.R.Begin(cs)
+		ctx.R.Eval(1)
+		ctx.R.Path("nlp-vocabulary-sweep", 1)
+		ctx.R.Guard("C20", "SearchUniversal", cs, func() {
+			a := vlib.Canon(db.Commands, db.SearchUniversal(q, o))
+			b := vlib.Canon(db.Commands, db.SearchUniversal(up, o))
+			if ok, why := vlib.Approx(a, b, o.Limit); !ok {
+				a2 := vlib.Canon(db.Commands, db.SearchUniversal(q, o))
+				if okA, _ := vlib.Approx(a, a2, o.Limit); !okA {
+					ctx.R.Inconcl("nlp sweep: reference unstable")
+					return
+				}
+				ctx.R.Violate(vlib.Violation{Property: "C20", Clause: "case-changes-answer", Path: "SearchUniversal/nlp-sweep",
+					Detail:  fmt.Sprintf("%s and %s get different answers: %s", vlib.Q(q), vlib.Q(up), why),
+					Witness: map[string]interface{}{"case": cs, "a": a, "b": b}})
+			}
+		})
+	})
+	c18AddExtra(ctx, "nlp_vocabulary_combinations", float64(total))
+	c18AddExtra(ctx, "nlp_vocabulary_words", float64(len(d.NLPWords))/float64(ctx.NShards))
+	c18AddExtra(ctx, "nlp_vocabulary_phrases", float64(len(d.NLPPhrases))/float64(ctx.NShards))
+}
+
 func engineCaseInv(ctx *Ctx) {
 	r := vlib.NewRand(ctx.Seed, ctx.Shard, "caseinv")
+	c20NLPSweep(ctx, r)
 	nDB := ctx.N(240, 12000)
 	nQ := ctx.Pick(40, 60)
 	for d := 0; d < nDB; d++ {
